@@ -161,6 +161,14 @@ int main(void)
     printf("%d", type);
     esl_msa_Destroy(msa);
   }
+  printf(",\"copyreused\":");
+  /* esl_sq_Copy(src without ss, dst that got an ss buffer from an earlier Copy): 1 = dst keeps a (stale) ss, 0 = dst->ss is NULL */
+  {
+    ESL_SQ *s1 = esl_sq_CreateFrom("a", "ACGTACGT", NULL, NULL, "<<....>>"), *s2 = esl_sq_CreateFrom("b", "ACG", NULL, NULL, NULL), *d = esl_sq_Create();
+    esl_sq_Copy(s1, d); esl_sq_Copy(s2, d);
+    printf("%d", d->ss ? 1 : 0);
+    esl_sq_Destroy(s1); esl_sq_Destroy(s2); esl_sq_Destroy(d);
+  }
   printf(",\"eslUNKNOWN\":%d,\"eslOK\":%d,\"eslFAIL\":%d,\"eslEINVAL\":%d,\"eslENOALPHABET\":%d}\n", eslUNKNOWN, eslOK, eslFAIL, eslEINVAL, eslENOALPHABET);
   return 0;
 }
@@ -206,6 +214,8 @@ def render_aux(d):
     out.append("def guessProbe : List Nat := " + lean_list(d["guessprobe"]))
     out.append("/-- answer of `esl_msa_GuessAlphabet` on the text alignment `ACGUACGUACGU` / `ACDEFGHIKLMN` (one row called RNA, one amino) -/")
     out.append("def msaMixedProbe : Nat := %d" % d["msamixed"])
+    out.append("/-- 1 = `esl_sq_Copy(src without ss, reused dst with an ss buffer)` leaves a stale `dst->ss`; 0 = it is released -/")
+    out.append("def sqCopyReusedProbe : Nat := %d" % d["copyreused"])
     for k in ("eslUNKNOWN", "eslOK", "eslFAIL", "eslEINVAL", "eslENOALPHABET"):
         out.append("def c_%s : Nat := %d" % (k, d[k]))
     out.append("")
